@@ -179,6 +179,20 @@ Collect(cap) ==
   /\ UNCHANGED <<up, pin, held, rootpin>>
   /\ last' = [op |-> "gc", cap |-> cap]
 
+\* a collection whose first run is interleaved, between candidate selection and eviction, with an access to
+\* file f (the accessed file is dirty and must be spared by that run; later runs see it as most recently used)
+RaceOps == {"read", "touch"}
+CollectRace(cap, f, rop) ==
+  LET lru0 == IF acct[f] > 0 THEN Touch(lru, f) ELSE lru
+      s0 == [data |-> data, acct |-> acct, gcSize |-> gcSize, known |-> known, bits |-> bits, lru |-> lru0,
+             pin |-> pin, up |-> up]
+      s1 == EvictUntil(s0, Target(cap)) IN
+  /\ f \in known /\ FChunks(f) \subseteq data
+  /\ data' = s1.data /\ acct' = s1.acct /\ gcSize' = s1.gcSize /\ known' = s1.known
+  /\ bits' = s1.bits /\ lru' = s1.lru
+  /\ UNCHANGED <<up, pin, held, rootpin>>
+  /\ last' = [op |-> "gc", cap |-> cap, race |-> [op |-> rop, f |-> f]]
+
 Restart == /\ UNCHANGED <<data, up, pin, acct, held, gcSize, known, rootpin, bits, lru>>
            /\ last' = [op |-> "restart"]
 
@@ -188,6 +202,7 @@ Next == \/ \E f \in File, p \in BOOLEAN : Upload(f, p)
         \/ \E f \in File, k \in TouchKinds : TouchChunk(f, k)
         \/ \E f \in File, via \in {"api", "svc"} : Pin(f, via) \/ Unpin(f, via)
         \/ \E cap \in Caps : Collect(cap)
+        \/ \E cap \in Caps, f \in File, rop \in RaceOps : CollectRace(cap, f, rop)
         \/ Restart
 
 Spec == Init /\ [][Next]_vars
